@@ -19,6 +19,7 @@ import Sgz.Model.Coords
 import Sgz.Model.HeaderReads
 import Sgz.Model.Derived
 import Sgz.Model.Xarray
+import Sgz.Model.SegyRaw
 /-!
 Line-protocol driver over the executable model (`Sgz/Model`, Mathlib-free).  One request per line, one answer per
 line.  The Python harness sends the same request to the real implementation and diffs canonical answers.
@@ -321,6 +322,14 @@ def handleXr (ws : List String) : String :=
     | _, _, _, _, _, _ => "bad-op"
   | _ => "bad-op"
 
+/-- `segyraw NIL NXL NS B0`: the range reads of a `reduce_iops` conversion on the SEG-Y file -/
+def handleSegyRaw (ws : List String) : String :=
+  match ws.mapM String.toNat? with
+  | some [nil, nxl, ns, b0] =>
+    if b0 == 0 then "bad-op" else
+    ",".intercalate ((SegyRaw.conversionReads nil nxl ns b0).map fun (a, b) => s!"{a}:{b}")
+  | _ => "bad-op"
+
 /-- `emul indices S E T LEN`, `emul range A B C`, `emul acc LEN S E T`, `emul line K1,K2,… S E T` (emulator | segyio) -/
 def handleEmul (ws : List String) : String :=
   match ws with
@@ -576,6 +585,7 @@ def handle (line : String) : String :=
   | "axes" :: rest => handleAxes rest
   | "emul" :: rest => handleEmul rest
   | "xr" :: rest => handleXr rest
+  | "segyraw" :: rest => handleSegyRaw rest
   | "crop" :: rest => handleCrop rest
   | "reblock" :: rest => handleReblock rest
   | "irr" :: rest => handleIrr rest
